@@ -103,6 +103,18 @@ def cmdObj (slots : Slots) (t : List String) : Slots × String :=
         | ["readline", n] => (slots, match n.toNat?, t.debug with
             | some n, some d => (match d.src.readLine n with | some l => "ok " ++ hexText l | none => "none")
             | _, _ => "none")
+        | ["srclines"] => (slots, match t.debug with | some d => s!"lines={d.src.countLines}" | none => "none")
+        | ["srcline", n] => (slots, match n.toNat?, t.debug with
+            | some n, some d => (match d.src.lineSpan n, d.src.readLine n with
+              | some sp, some txt => s!"span={sp.1}..{sp.2} text={hexText txt}"
+              | none, none => "none"
+              | _, _ => "inconsistent")
+            | some _, none => "nosrc"
+            | _, _ => "bad-op")
+        | ["srcpos", n] => (slots, match n.toNat?, t.debug with
+            | some n, some d => let p := d.src.getPosPair n; s!"{p.1} {p.2}"
+            | some _, none => "nosrc"
+            | _, _ => "bad-op")
         | _ => bad
   | ["bser", slot] => (slots, match slotGet slots slot with | some o => hexBytes (canonBin o) | none => "noslot")
   | ["bde", dst, h] =>
